@@ -33,7 +33,7 @@ var stdInterp = []string{
 // extraInterp lists third-party packages interpreted from source.
 var extraInterp = []string{
 	"github.com/go-errors/errors", "github.com/pkg/errors", "github.com/arr-ai/frozen", "github.com/arr-ai/hash", "github.com/arr-ai/wbnf/parser", "github.com/spf13/afero",
-	"github.com/arr-ai/wbnf/wbnf", "github.com/arr-ai/wbnf/ast", "github.com/arr-ai/wbnf/errors", "github.com/arr-ai/wbnf/gotree",
+	"github.com/arr-ai/wbnf/wbnf", "github.com/arr-ai/wbnf/ast", "github.com/arr-ai/wbnf/parser/diff", "github.com/arr-ai/wbnf/errors", "github.com/arr-ai/wbnf/gotree",
 }
 
 // Load builds the SSA program for the requested packages with the model overlays applied.
